@@ -124,3 +124,38 @@ Print Assumptions C16_range_cache_bounded.
 Print Assumptions C16_range_cache_hit_identity.
 Print Assumptions C16_range_cache_ids_distinct.
 Print Assumptions C16_range_cache_no_panic.
+
+(* ======================================================================================================== *)
+(* R2G block (added; see notes/R2G.md): the accounting lines of Heap::collect, Heap::collect_if_required and the
+   pacing decision + accounting line of Heap::allocate_raw, TRANSLATED from the current memory.rs into
+   gen/PureHeap.v by translator/rust2gallina.py on every run, equal the hand-written model (Pacing.do_collect /
+   alloc_paced / alloc_stress).  A change of one of these lines changes the generated text and breaks the NAMED
+   statement.  Side conditions: a collection never frees more than is allocated, the counters stay below 2^64. *)
+From YVGen Require PureHeap.
+From YV Require R2G R2GProofs PureEquivHeap.
+Theorem C16_gen_heap_collect_eq_model : forall s freed,
+  (freed <= bytes s)%N -> (Z.of_N ((bytes s - freed) * PureEquivHeap.G) < 2 ^ 64)%Z -> (Z.of_N (bytes s) < 2 ^ 64)%Z ->
+  PureHeap.Heap_collect (Z.of_N (threshold s)) (Z.of_N (bytes s)) (Z.of_N freed) =
+  R2G.Val (PureEquivHeap.heap_view (do_collect PureEquivHeap.G freed s)).
+Proof. exact PureEquivHeap.gen_heap_collect_eq_model. Qed.
+Theorem C16_gen_heap_collect_if_required_eq_model : forall s freed,
+  PureEquivHeap.collect_ok s freed ->
+  PureHeap.Heap_collect_if_required (Z.of_N (threshold s)) (Z.of_N (bytes s)) (Z.of_N freed) =
+  R2G.Val (PureEquivHeap.heap_view (if (threshold s <=? bytes s)%N then do_collect PureEquivHeap.G freed s else s)).
+Proof. exact PureEquivHeap.gen_heap_collect_if_required_eq_model. Qed.
+Theorem C16_gen_heap_allocate_raw_eq_model : forall (stress : bool) s freed size,
+  PureEquivHeap.collect_ok s freed ->
+  (Z.of_N (bytes (fst ((if stress then alloc_stress PureEquivHeap.G else alloc_paced PureEquivHeap.G) freed size s)))
+   < 2 ^ 64)%Z ->
+  PureHeap.Heap_allocate_raw stress (Z.of_N (threshold s)) (Z.of_N (bytes s)) (Z.of_N freed) (Z.of_N size) =
+  R2G.Val (PureEquivHeap.heap_view
+             (fst ((if stress then alloc_stress PureEquivHeap.G else alloc_paced PureEquivHeap.G) freed size s))).
+Proof. exact PureEquivHeap.gen_heap_allocate_raw_eq_model. Qed.
+(* the growth factor the generated lines multiply by is the one the theorems above are instantiated with *)
+Theorem C16_gen_growth_factor : PureEquivHeap.G = GROWTH.
+Proof. reflexivity. Qed.
+Print Assumptions C16_gen_heap_collect_eq_model.
+Print Assumptions C16_gen_heap_collect_if_required_eq_model.
+Print Assumptions C16_gen_heap_allocate_raw_eq_model.
+Print Assumptions C16_gen_growth_factor.
+(* ================================================ end of the R2G block ================================= *)
